@@ -47,6 +47,12 @@ func refCompress(enc string, p []byte) []byte {
 
 // refDecode: everything the decoder delivers, and whether it ended with an error (not EOF).
 func refDecode(enc string, c []byte) (out []byte, failed bool) {
+	return refDecodeSched(enc, c, nil)
+}
+
+// refDecodeSched: the same with the reads a caller performs: ReadFull of the given sizes until the first
+// error, then (if none) the rest in one go.
+func refDecodeSched(enc string, c []byte, sizes []int) (out []byte, failed bool) {
 	defer func() {
 		if e := recover(); e != nil {
 			failed = true
@@ -75,8 +81,25 @@ func refDecode(enc string, c []byte) (out []byte, failed bool) {
 	default:
 		panic("refDecode " + enc)
 	}
-	out, err := io.ReadAll(r)
-	return out, err != nil
+	for _, n := range sizes {
+		buf := make([]byte, n)
+		got, spins := 0, 0
+		for got < n {
+			k, err := r.Read(buf[got:])
+			got += k
+			if err != nil {
+				return append(out, buf[:got]...), err != io.EOF
+			}
+			if k == 0 {
+				if spins++; spins > 1000 {
+					return append(out, buf[:got]...), true
+				}
+			}
+		}
+		out = append(out, buf...)
+	}
+	rest, err := io.ReadAll(r)
+	return append(out, rest...), err != nil
 }
 
 // blob: how a body is shown to the Coq model - the bytes when short, else a tag.
